@@ -136,21 +136,21 @@ class DateTime(datetime.datetime, Date):
         if dt.tzinfo is not None and tz is not None:
             # Keep the instant: some tzinfo implementations (pytz) do not
             # record which occurrence of a repeated time is meant in ``fold``.
-            if dt.tzinfo is tz:
-                # astimezone() hands the value back untouched in that case,
-                # also when its wall time does not exist in the timezone
-                utc = datetime.datetime(
-                    dt.year,
-                    dt.month,
-                    dt.day,
-                    dt.hour,
-                    dt.minute,
-                    dt.second,
-                    dt.microsecond,
-                ) - cast(datetime.timedelta, dt.utcoffset())
-                dt = tz.fromutc(utc.replace(tzinfo=tz))
-            else:
-                dt = datetime.datetime.astimezone(dt, tz)
+            # astimezone() hands the value back untouched when it is already
+            # in that timezone, also when its wall time does not exist there,
+            # and fromutc() implementations do arithmetic on the value they
+            # are given (a pendulum one would go through its own operators):
+            # go through a native UTC value
+            utc = datetime.datetime(
+                dt.year,
+                dt.month,
+                dt.day,
+                dt.hour,
+                dt.minute,
+                dt.second,
+                dt.microsecond,
+            ) - cast(datetime.timedelta, dt.utcoffset())
+            dt = tz.fromutc(utc.replace(tzinfo=tz))
 
         return cls.create(
             dt.year,
